@@ -315,6 +315,13 @@ static void tuple_checks() {
 		frg::tuple<long long &, long long &> copy(refs);
 		bool same2 = &copy.template get<1>() == &y;
 		frg::tuple<long long, long long> conv(frg::make_tuple(a, b));
+		// reference identity survives tuple_cat (reference elements are passed on as references)
+		long long p = a, q = b;
+		frg::tuple<long long &, long long> rt(p, 5);
+		frg::tuple<long long &> rt2(q);
+		auto rcat = frg::tuple_cat(rt, rt2);
+		bool catref = &rcat.template get<0>() == &p && &rcat.template get<2>() == &q && rcat.template get<1>() == 5;
+		same2 = same2 && catref;
 		Ev("TupleObs").raw("vals", jarr({a, b, c})).raw("got", jarr(got)).raw("applied", jarr(applied)).raw("cat", jarr(catv))
 			.i("refsame", same && same2 ? 1 : 0).i("write_through", x == 77 ? 1 : 0).raw("conv", jarr({conv.template get<0>(), conv.template get<1>()})).emit();
 	}
